@@ -10,7 +10,7 @@ demo() {  # $1 = tag
 }
 {
 cd $WT || exit 9
-git checkout -q -- . ; git apply $D/$M.diff || { echo "APPLY FAILED"; exit 3; }
+git checkout -q -- . ; git checkout -q --detach $(git -C /repo rev-parse HEAD); git apply $D/$M.diff || { echo "APPLY FAILED"; exit 3; }
 make -j4 > $D/${M}_build.log 2>&1; echo "build rc=$?"
 grep -c "warning:" $D/${M}_build.log | sed 's/^/warnings in build log: /'
 make -C tests check > $D/${M}_suite.log 2>&1; echo "suite rc=$?"
